@@ -26,6 +26,11 @@ fn dispatch(sx: &Sx) -> String {
     match sx.head() {
         "osstr" => modes::lex::osstr(args),
         "cursor" => modes::lex::cursor(args),
+        "int" => modes::value::int(args),
+        "bool" => modes::value::boolean(args),
+        "possible" => modes::value::possible(args),
+        "enum" => modes::value::enumeration(args),
+        "store" => modes::value::store(args),
         m => format!("unknown-mode {m}"),
     }
 }
